@@ -69,7 +69,7 @@ def allFnRefs (t : Table) : List Id := t.filterMap (·.2.fnRef)
 /-- C09: tables hold exactly what is needed, each entry once. -/
 def exact (m : MirProg) : Bool :=
   -- program table = reachable from the outputs; function tables = reachable from the return op
-  (let r := reachIn m.operations (fuelOf m.operations) (m.outputs.map (·.opId)) []
+  (let r := reachIn m.operations (fuelOf m.operations + m.outputs.length) (m.outputs.map (·.opId)) []
    m.operations.all fun e => r.contains e.1) &&
   m.functions.all (fun f =>
     let r := reachIn f.ops (fuelOf f.ops) [f.returnOp] []
